@@ -385,7 +385,7 @@ func inlineKnown() bool {
 func TestProp(t *testing.T) {
 	vt.Main(t, vt.Spec[Case]{
 		ID:           "C16",
-		Rule:         "a case is a batch of rapid-generated service definitions (8 per batch quick, 16 thorough; 1-12 methods over call-type option sets, async/per_node_arg/custom_return_type, stream flags, file-local/Empty/imported message types (the imported Go package in a third of the cases named like a package the generated code imports itself: encoding, fmt, gorums, context, ...), 0-2 services, ordinary and hostile identifier spellings, leading comments of rpcs with awkward texts (comment delimiters, template syntax, build constraints, quotes, empty lines), parameters ''/paths=source_relative/dev=true), each run 3x through the working tree's plugin - and, if accepted, generated once more by one invocation together with a 'version 2' twin (same service and method names, other package, call types rotated), in both orders, where every file must come out as it does alone - and compiled with protoc-gen-go's message code in one go build per batch; a definition is non-trivial if it has >= 2 methods of different call types, or an advanced option or stream flag, or an imported message type, or a name from a hostile pool; the batch is non-trivial if one of its definitions is (class nontrivial-definition counts definitions); distinct = distinct canonical JSON of the batch",
+		Rule:         "a case is a batch of rapid-generated service definitions (8 per batch quick, 16 thorough; 1-12 methods over call-type option sets, async/per_node_arg/custom_return_type, stream flags, file-local/Empty/imported message types (the imported Go package in a third of the cases named like a package the generated code imports itself: encoding, fmt, gorums, context, ...), 0-2 services, ordinary and hostile identifier spellings, leading comments of rpcs with awkward texts (comment delimiters, template syntax, build constraints, quotes, empty lines), parameters ''/paths=source_relative/dev=true), each run 3x through the working tree's plugin - and, if accepted, generated once more by one invocation together with a 'version 2' twin (same service and method names, other package, call types rotated), in both orders, where every file must come out as it does alone - and compiled with protoc-gen-go's message code in one go build per batch; a definition is non-trivial if it has >= 2 methods of different call types, or an advanced option or stream flag, or an imported message type, or a name from a hostile pool; the batch is non-trivial if one of its definitions is (class nontrivial-definition counts definitions); distinct = distinct canonical JSON of the batch; every definition that is refused alone is also generated by one invocation together with a small legal companion file, in both orders, and must still draw a diagnostic (diagnostic-lost)",
 		Gen:          genCase,
 		Run:          run,
 		TrackCurrent: true,
